@@ -550,6 +550,41 @@ func checkC09(c *Ctx) {
 
 	// ---- R2 ----
 	checkNonceSurvivesReload(c, "C09.R2")
+
+	// ---- R4 ----
+	c.Rule("C09.R4", "entries leave the nonce store only one by one behind their own expiry test: outside the construction of a new cache no function replaces, clears or nils a map field of the nonce cache (a rotated or re-made map forgets nonces whose signed timestamp is still inside the tolerance, whatever window the rotation assumes)")
+	nWr, nCtor := 0, 0
+	for _, fn := range p.FuncsInPkg("ingress") {
+		for _, b := range fn.Blocks {
+			for _, ins := range b.Instrs {
+				switch x := ins.(type) {
+				case *ssa.Store:
+					fa, ok := x.Addr.(*ssa.FieldAddr)
+					if !ok || namedName(fa.X.Type()) != recvT {
+						continue
+					}
+					if _, isMap := x.Val.Type().Underlying().(*types.Map); !isMap {
+						continue
+					}
+					nWr++
+					if al, ok := fa.X.(*ssa.Alloc); ok && namedName(al.Type()) == recvT {
+						nCtor++
+						continue // a field of the cache being constructed
+					}
+					_, f, _ := fieldAddrName(fa)
+					c.Fail("C09.R4", fmt.Sprintf("ingress.%s:%s.%s replaced", fn.Name(), recvT, f), p.InstrPos(x), "the nonce map of a live cache is replaced wholesale: every nonce it held is forgotten at once, including those whose signed timestamp still passes the tolerance test (a captured request is accepted a second time)")
+				case *ssa.Call:
+					if bi, ok := x.Call.Value.(*ssa.Builtin); ok && bi.Name() == "clear" && len(x.Call.Args) == 1 {
+						if root, _, ok := fieldPathRootOfLoad(x.Call.Args[0]); ok && root == recvT {
+							nWr++
+							c.Fail("C09.R4", fmt.Sprintf("ingress.%s:%s cleared", fn.Name(), recvT), p.InstrPos(x), "the nonce map of a live cache is cleared: every live nonce is forgotten at once")
+						}
+					}
+				}
+			}
+		}
+	}
+	c.Check(nCtor >= 1, "C09.R4", "ingress."+recvT+":map built in the constructor only", p.Pos(nfnOrig.Pos()), fmt.Sprintf("%d store(s) of a map into a %s field, %d of them into a cache under construction", nWr, recvT, nCtor), "no construction of the nonce map found")
 }
 
 func reachableFrom(a, b ssa.Instruction) bool {
